@@ -132,6 +132,17 @@ def check_unnorm(case, ctx):
             ctx.violation('unnormalised-input-rejected', f'{ID}/unnormalised-accepted',
                           f'matrix {M} (row {pos} not normalised, sums {[sum(r) for r in M]}) was decoded to '
                           f'{[(h.transcript, h.vis_sc) for h in boh]} instead of being rejected', dict(case, k=k, sel=sel))
+        # history: a decoder object that has already decoded a proper matrix must still reject this one
+        dec = CTCPrefixLogRawNumpyDecoder(LETTERS[C], k)
+        dec(to_log([list(rows_for(C)[i]) for i in case['rows']]))
+        ctx.executed(2)
+        try:
+            boh = dec(lp.copy())
+        except ValueError:
+            continue
+        ctx.violation('unnormalised-input-rejected', f'{ID}/unnormalised-accepted-by-a-used-decoder',
+                      f'matrix {M} (row {pos} not normalised) was decoded to {[(h.transcript, h.vis_sc) for h in boh]} by a decoder object that '
+                      f'had decoded a normalised matrix before; a fresh decoder rejects it', dict(case, k=k))
     ctx.nontrivial(('unnorm', C, tuple(case['rows']), pos, var), 'unnormalised-variants')
 
 
